@@ -12,13 +12,13 @@
 From Coq Require Export List Bool Arith Lia.
 Export ListNotations.
 
-Inductive sig := SigInt | SigTerm | SigQuit.
+Inductive sigk := SigInt | SigTerm | SigQuit.
 
 (* ServerCommand::Stop { graceful, completion, force_system_stop } *)
 Record stopcmd := mkStop { sc_graceful : bool; sc_completion : option nat; sc_force : bool }.
 
 (* map_signal *)
-Definition map_signal (k : sig) : stopcmd :=
+Definition map_signal (k : sigk) : stopcmd :=
   match k with
   | SigInt => mkStop false None true
   | SigTerm => mkStop true None true
@@ -46,7 +46,7 @@ Record scfg := mkSCfg { s_workers : nat; s_system_exit : bool }.
 Record sst := mkSst {
   ctl : sctl;
   cmdq : list cmd;           (* cmd_rx *)
-  sigs : list sig;           (* delivered, not yet seen by the Signals future *)
+  sigs : list sigk;           (* delivered, not yet seen by the Signals future *)
   sig_armed : bool;          (* mux.signal_fut is Some *)
   acks : list wack;          (* one per worker handle, meaningful once the stop was sent *)
   accept_exited : bool;
@@ -56,7 +56,7 @@ Record sst := mkSst {
 Inductive sop :=
 | UStop (g : bool)           (* a user calls ServerHandle::stop(g); its future gets the next id *)
 | UOther                     (* pause() / resume() *)
-| USignal (k : sig)
+| USignal (k : sigk)
 | WAck (i : nat) (b : bool)  (* worker i acknowledges its stop *)
 | WDrop (i : nat)            (* worker i drops the ack sender (second stop, dead worker, ...) *)
 | AcceptExit                 (* the accept thread has processed the Stop interest and returned *)
@@ -110,10 +110,10 @@ Fixpoint join_results (res : list jres) : option (list (option bool)) :=
   end.
 
 (* ---- Signals future: SIGINT, SIGTERM, SIGQUIT streams are polled in this order ----------- *)
-Definition sig_eqb (a b : sig) : bool :=
+Definition sig_eqb (a b : sigk) : bool :=
   match a, b with SigInt, SigInt | SigTerm, SigTerm | SigQuit, SigQuit => true | _, _ => false end.
 
-Definition pick_signal (l : list sig) : option sig :=
+Definition pick_signal (l : list sigk) : option sigk :=
   if existsb (sig_eqb SigInt) l then Some SigInt
   else if existsb (sig_eqb SigTerm) l then Some SigTerm
   else if existsb (sig_eqb SigQuit) l then Some SigQuit
